@@ -130,6 +130,11 @@ class AtxModel:
         self.buf = b""
         self.referee_errors = []
         self.read_timeout = 0.2
+        self.conflict = None     # set per operation: lines the hat emits around a collision
+
+    @property
+    def in_waiting(self):
+        return sum(len(d) for d in self.out if not isinstance(d, tuple) or d[0] <= self.world.clock.t)
 
     def write(self, data):
         self.world.log.add(self.world.clock.t, "write", "atx", bytes(data).hex())
@@ -159,6 +164,17 @@ class AtxModel:
         value = int(hexpart, 16)
         o = self.outcome_of(bits, value)
         n = 2 if txt[0] == "t" else 1
+        if self.conflict:
+            # another bus master's frame collided with ours: the hat reports the conflict and goes on
+            # reporting what it sees on the bus (that master's transaction) - each line within the
+            # port timeout of the one before; the driver waits for the line to fall silent and sends again
+            self.world.probe("atx-hat-conflict")
+            t = self.world.clock.t
+            for gap_ms, text in self.conflict:
+                t += gap_ms / 1000.0
+                self.out.append((t, (text + "\n").encode()))
+            self.conflict = None
+            return
         if o[0] == "mute":
             self.world.probe("atx-hat-mute")
             return                      # the hat says nothing at all: every read times out
@@ -177,6 +193,16 @@ class AtxModel:
                 self.out.append(b"N\n")
 
     def read_until(self, term=b"\n"):
+        if self.out and isinstance(self.out[0], tuple):
+            wait = self.out[0][0] - self.world.clock.t
+            if wait > self.read_timeout:
+                self.world.clock.sleep(self.read_timeout)
+                self.world.log.add(self.world.clock.t, "read-timeout", "atx", None)
+                return b""
+            self.world.clock.sleep(max(wait, 0.001))
+            d = self.out.pop(0)[1]
+            self.world.log.add(self.world.clock.t, "read", "atx", d.hex())
+            return d
         if self.out:
             self.world.clock.sleep(0.03)
             d = self.out.pop(0)
@@ -225,6 +251,15 @@ def gen_plan(r, eng, seed, prop):
         ops.append({"cmd": s, "out": o})
     if eng == "daliserver" and ops and r.random() < 0.2:
         ops[-1]["conn_fault"] = r.choice(["send", "recv"])
+    if eng == "atx":
+        x = keyed_rng(seed, "plan", prop + "-conflict")
+        for op in ops:
+            if not cmds.mk_cmd(op["cmd"]).sendtwice and x.random() < 0.12:
+                lines, kind = [[x.choice([5, 20, 60]), x.choice(["Z", "Z", "Z01"])]], x.random()
+                for _ in range(x.randrange(0, 4)):
+                    lines.append([x.choice([10, 50, 90, 130, 150, 170]),
+                                  x.choice(["J%02X" % x.randrange(256), "JFF", "J00", "N", "H%04X" % x.getrandbits(16)])])
+                op["conflict"] = lines
     if eng == "atx" and ops and r.random() < 0.15:
         # no verdict line within the driver's read budget: nothing is known about the bus ('no answer' for a
         # query, None for a command) - last operation of the plan, what is left unread would reach a next one
@@ -249,6 +284,15 @@ def shrink(plan):
         p = copy.deepcopy(plan)
         p["knobs"]["multi"] = False
         yield p
+    for i, op in enumerate(ops):
+        if op.get("conflict"):
+            p = copy.deepcopy(plan)
+            del p["ops"][i]["conflict"]
+            yield p
+            for j in range(1, len(op["conflict"])):
+                p = copy.deepcopy(plan)
+                del p["ops"][i]["conflict"][j]
+                yield p
 
 
 def execute(plan):
@@ -294,6 +338,7 @@ def execute(plan):
             for op in plan["ops"]:
                 n0 = len(model.lines_in)
                 cur["op"] = op
+                model.conflict = op.get("conflict")
                 try:
                     results.append(("ok", d.send(cmds.mk_cmd(op["cmd"])), n0))
                 except Exception as e:              # noqa: BLE001
